@@ -80,15 +80,7 @@ func checkInter(scen string, in In) verdict {
 			return verdict{class: "invalid-input"}
 		}
 	}
-	var panicMsg string
-	for _, ri := range it.Schedule {
-		if ri < 0 || ri >= len(live) {
-			return verdict{class: "invalid-input"}
-		}
-		lr, rd := live[ri], it.Readers[ri]
-		if lr.err != "" || lr.eof {
-			continue
-		}
+	step := func(lr *liveReader, rd IReader) {
 		p, msg := mc.Guard(func() {
 			if !lr.opened {
 				lr.opened = true
@@ -128,10 +120,27 @@ func checkInter(scen string, in In) verdict {
 		})
 		if p {
 			lr.err = "panic: " + msg
-			panicMsg = msg
 		}
 	}
-	_ = panicMsg
+	for _, ri := range it.Schedule {
+		if ri < 0 || ri >= len(live) {
+			return verdict{class: "invalid-input"}
+		}
+		if lr := live[ri]; lr.err == "" && !lr.eof {
+			step(lr, it.Readers[ri])
+		}
+	}
+	// a reader that has not reached its end when the schedule is over (the library delivered MORE than the model has)
+	// is read to its end — that is an outcome to judge, not a fault of the harness
+	for i, lr := range live {
+		for n := 0; lr.err == "" && !lr.eof; n++ {
+			if n > 10000 {
+				lr.err = "more than 10000 further paragraphs after the schedule"
+				break
+			}
+			step(lr, it.Readers[i])
+		}
+	}
 	// judge every reader AFTER the whole schedule
 	for i, rd := range it.Readers {
 		lr := live[i]
@@ -149,10 +158,6 @@ func checkInter(scen string, in In) verdict {
 			signer = lr.dec.Signer()
 		}
 		o := obs{readErr: lr.err, delivered: got, signer: gen.CSFingerprint(signer), signerEnt: signer}
-		if !lr.eof && lr.err == "" {
-			o.readErr = "harness: schedule ended before the reader reached EOF"
-			return verdict{class: "invalid-input", o: o}
-		}
 		mk := func(clause, expected string) verdict {
 			v := mc.V(scen, clause, in, fmt.Sprintf("reader %d (%s), as if it ran alone: %s", i, rd.Name, expected), o.String(),
 				"interleaved-readers", "via-"+it.Via, fmt.Sprintf("readers-%d", len(it.Readers)))
